@@ -73,5 +73,33 @@ func linConsts(repo string, add func(string, int64, string)) error {
 	}
 	add("lin_removeall_locks", n,
 		"memmap.go RemoveAll: number of Lock/RLock acquisitions in its body (1 = one critical section)")
+	// Chmod (+ setFileMode when it is called) and Chtimes: lookup under one lock, update under another?
+	sfm := m.fn("MemMapFs", "setFileMode")
+	ch := m.fn("MemMapFs", "Chmod")
+	if ch == nil {
+		return fmt.Errorf("memmap.go: MemMapFs.Chmod not found")
+	}
+	n = countMethodCalls(ch, "Lock", "RLock")
+	if countMethodCalls(ch, "setFileMode") > 0 {
+		if sfm == nil {
+			return fmt.Errorf("memmap.go: Chmod calls setFileMode, which is not found")
+		}
+		n += countMethodCalls(sfm, "Lock", "RLock")
+	}
+	if n == 0 {
+		return fmt.Errorf("memmap.go: Chmod: no lock acquisition found")
+	}
+	add("lin_chmod_locks", n,
+		"memmap.go Chmod (with setFileMode when called): number of Lock/RLock acquisitions (1 = lookup and update in one critical section)")
+	ct := m.fn("MemMapFs", "Chtimes")
+	if ct == nil {
+		return fmt.Errorf("memmap.go: MemMapFs.Chtimes not found")
+	}
+	n = countMethodCalls(ct, "Lock", "RLock")
+	if n == 0 {
+		return fmt.Errorf("memmap.go: Chtimes: no lock acquisition found")
+	}
+	add("lin_chtimes_locks", n,
+		"memmap.go Chtimes: number of Lock/RLock acquisitions (1 = lookup and update in one critical section)")
 	return nil
 }
